@@ -53,14 +53,16 @@ Section FP.
   Definition comp_nonrandom (m : @comp_model F) : Prop := match m with CRandom _ _ _ _ _ _ => False | _ => True end.
   Definition grains_nonrandom (m : @grains_model F) : Prop := match m with GRandom _ _ _ _ _ _ => False | _ => True end.
 
-  Lemma comp_fold_nonrandom tape sph q c ms : Forall comp_nonrandom ms -> forall v t,
-    fold_left (fun st m => comp_eval tape sph q m c st) ms (v, t) =
-    (fst (fold_left (fun st m => comp_eval tape sph q m c st) ms (v, 0)), t).
+  Lemma comp_fold_nonrandom tape sph q wt c ms : Forall comp_nonrandom ms -> forall v t,
+    fold_left (fun st m => comp_eval tape sph q wt m c st) ms (v, t) =
+    (fst (fold_left (fun st m => comp_eval tape sph q wt m c st) ms (v, 0)), t).
   Proof.
     intros H. induction H as [|m ms Hm Hms IH]; intros v t; [reflexivity|]. cbn [fold_left].
-    destruct m as [mn mx o comps fracs|]; [|destruct Hm]. cbn [comp_eval].
-    destruct (in_range _ _ _); [|apply IH]. destruct (in_range _ _ _); [|apply IH].
-    destruct (find_comp comps fracs c); apply IH.
+    destruct m as [mn mx o comps fracs| |mn mx o comps lith density maxw cutoff]; [|destruct Hm|]; cbn [comp_eval].
+    - destruct (in_range _ _ _); [|apply IH]. destruct (in_range _ _ _); [|apply IH].
+      destruct (find_comp comps fracs c); apply IH.
+    - destruct (in_range _ _ _); [|apply IH]. destruct (in_range _ _ _); [|apply IH].
+      destruct (wt tt); [|apply IH]. destruct (existsb _ comps); apply IH.
   Qed.
 
   Lemma grains_fold_nonrandom tape sph q c k ms : Forall grains_nonrandom ms -> forall b t,
@@ -82,7 +84,7 @@ Section FP.
 
   Lemma area_paint_len g tape sph a : paint_len (area_to_feature g tape sph a).
   Proof.
-    intros q p t blk L. cbn [area_to_feature ft_paint]. unfold area_paint.
+    intros q wt p t blk L. cbn [area_to_feature ft_paint]. unfold area_paint.
     destruct p; cbn [fst length width] in *; try reflexivity.
     - destruct (fold_left _ (af_comp a) _) as [v t']. reflexivity.
     - apply grains_fold_length. exact L.
@@ -94,20 +96,20 @@ Section FP.
 
   Lemma area_no_random g tape sph a : area_nonrandom a -> no_random (area_to_feature g tape sph a).
   Proof.
-    intros [HC HG] q p t blk. cbn [area_to_feature ft_paint]. unfold area_paint.
+    intros [HC HG] q wt p t blk. cbn [area_to_feature ft_paint]. unfold area_paint.
     destruct p; try reflexivity.
-    - rewrite (comp_fold_nonrandom tape sph q c (af_comp a) HC _ t).
+    - rewrite (comp_fold_nonrandom tape sph q wt c (af_comp a) HC _ t).
       destruct (fold_left _ (af_comp a) (nth 0 blk f0, 0)) as [v t']. reflexivity.
     - rewrite (grains_fold_nonrandom tape sph q c k (af_grains a) HG blk t). reflexivity.
     - destruct (fold_left _ (af_vel a) _) as [[vx vy] vz]. reflexivity.
   Qed.
 
   Lemma area_paints_tag g tape sph a : paints_tag (area_to_feature g tape sph a).
-  Proof. intros q t blk. reflexivity. Qed.
+  Proof. intros q wt t blk. reflexivity. Qed.
 
   Lemma plume_paint_len g tape sph pl : paint_len (plume_to_feature g tape sph pl).
   Proof.
-    intros q p t blk L. cbn [plume_to_feature ft_paint]. unfold plume_paint.
+    intros q wt p t blk L. cbn [plume_to_feature ft_paint]. unfold plume_paint.
     destruct p; cbn [fst length width] in *; try reflexivity.
     - destruct (fold_left _ (pl_comp pl) _) as [v t']. reflexivity.
     - apply grains_fold_length. exact L.
@@ -119,14 +121,14 @@ Section FP.
 
   Lemma plume_no_random g tape sph pl : plume_nonrandom pl -> no_random (plume_to_feature g tape sph pl).
   Proof.
-    intros [HC HG] q p t blk. cbn [plume_to_feature ft_paint]. unfold plume_paint.
+    intros [HC HG] q wt p t blk. cbn [plume_to_feature ft_paint]. unfold plume_paint.
     destruct p; try reflexivity.
-    - rewrite (comp_fold_nonrandom tape sph q c (pl_comp pl) HC _ t).
+    - rewrite (comp_fold_nonrandom tape sph q wt c (pl_comp pl) HC _ t).
       destruct (fold_left _ (pl_comp pl) (nth 0 blk f0, 0)) as [v t']. reflexivity.
     - rewrite (grains_fold_nonrandom tape sph q c k (pl_grains pl) HG blk t). reflexivity.
     - destruct (fold_left _ (pl_vel pl) _) as [[vx vy] vz]. reflexivity.
   Qed.
 
   Lemma plume_paints_tag g tape sph pl : paints_tag (plume_to_feature g tape sph pl).
-  Proof. intros q t blk. reflexivity. Qed.
+  Proof. intros q wt t blk. reflexivity. Qed.
 End FP.
